@@ -12,6 +12,7 @@ classify the outcome.
   //@loop-body <k>                                      following lines go right after the opening brace of the k-th loop's body
   //@before <snippet> / //@after <snippet>              following lines go before/after the (unique) body line containing <snippet>
   //@before #<k>/<n> <snippet>                          ... the k-th of exactly n body lines containing <snippet>
+                                                        (<snippet> may be `re:<python regex>`, searched in each body line)
   //@body-start                                         following lines go right after the opening brace of the body
   //@body-end                                           following lines go before the body's tail expression (or its closing brace)
   //@end
@@ -298,7 +299,23 @@ def render_extract(ex, report, vacuity=False):
         return [Line(t, ('repo', ex.relpath, first_line + i)) for i, t in enumerate(text.split('\n'))]
 
     if it.body_open is None:
-        raise AnchorLost(f"{fid}: no body")
+        # a trait method declaration: signature + contract + `;`
+        if not (ex.scope or '').startswith('trait '):
+            raise AnchorLost(f"{fid}: no body")
+        sig = rf.src[it.start:it.end].rstrip().rstrip(';').rstrip()
+        for (label, n, pat, repl) in ex.rewrites:
+            sig, k = re.subn(pat, repl, sig, flags=re.S)
+            if not count_ok(n, k):
+                raise AnchorLost(f"{fid}: rewrite {label} expected {n} hits, got {k}")
+            rep['rewrites'][label] = k
+        if ex.contract and not ex.noname:
+            sig, k = name_return(sig)
+            if k:
+                rep['rewrites']['R7 name-return'] = k
+        out = [Line(t, ('repo', ex.relpath, first_line + i)) for i, t in enumerate(sig.split('\n'))]
+        out.extend(ex.contract)
+        out.append(Line('    ;', ('vspec', ex.vline)))
+        return out
     sig = rf.src[it.start:it.body_open].rstrip()
     body = rf.src[it.body_open:it.end]          # includes braces
     body_first_line = rf.line_of(it.body_open)
@@ -358,7 +375,11 @@ def render_extract(ex, report, vacuity=False):
         m = re.match(r'#(\d+)/(\d+)\s+(.*)$', snip)
         k, n = (int(m.group(1)), int(m.group(2))) if m else (0, 1)
         text = m.group(3) if m else snip
-        hits = [i for i, l in enumerate(mlines) if text in l]
+        if text.startswith('re:'):
+            rx = re.compile(text[3:])
+            hits = [i for i, l in enumerate(mlines) if rx.search(l)]
+        else:
+            hits = [i for i, l in enumerate(mlines) if text in l]
         if len(hits) != n:
             raise AnchorLost(f"{fid}: anchor `{text}` matches {len(hits)} lines, expected {n}")
         return hits[k]
